@@ -132,6 +132,12 @@ let rec body lines =
            let r = for_point (match cd.enc x with Some v -> v | None -> N0) !t in
            emit (String.concat " " ("o" :: List.map string_of_n r));
            if not !folding then stat (Printf.sprintf "@q %d %d" (List.length r) (size !t |> int_of_nat))
+         | ["qm"; mode; lb; ub] when List.mem mode ["co"; "cu"; "ga"] && cd.enc lb <> None && cd.enc ub <> None ->
+           (* the model: the bounds are read once at the call; what the callback does to the caller's variables is irrelevant *)
+           let get o = (match o with Some v -> v | None -> N0) in
+           emit (String.concat " " ("o" :: List.map string_of_n (for_overlaps (get (cd.enc lb)) (get (cd.enc ub)) !t))); stat "@qmut"
+         | ["pm"; mode; x] when List.mem mode ["co"; "cu"; "ga"] && cd.enc x <> None ->
+           emit (String.concat " " ("o" :: List.map string_of_n (for_point (match cd.enc x with Some v -> v | None -> N0) !t))); stat "@qmut"
          | ["qt"; kind; lb; ub] when (if kind = "mix" then typed_ok cd "usz" lb && typed_ok cd "i32" ub else typed_ok cd kind lb && typed_ok cd kind ub) ->
            (* the model: the query is converted to the endpoint type once, whatever type the arguments had *)
            (match cd.enc lb, cd.enc ub with
@@ -173,6 +179,10 @@ and enum_script n u k cd =
   let ins = List.init n (fun j -> Printf.sprintf "i %s %s %d" (cd.of_int (fst seq.(j))) (cd.of_int (snd seq.(j))) j) in
   let qs = List.concat (List.init (u + 1) (fun lb -> List.init (u + 1 - lb) (fun d -> Printf.sprintf "q %s %s" (cd.of_int lb) (cd.of_int (lb + d)))))
            @ List.init (u + 1) (fun p -> Printf.sprintf "p %s" (cd.of_int p)) in
+  let modes = [| "co"; "cu"; "ga" |] in
+  let qs = qs @ List.concat (List.init (u + 1) (fun lb -> List.init (u + 1 - lb) (fun d ->
+                    Printf.sprintf "qm %s %s %s" modes.((lb + lb + d) mod 3) (cd.of_int lb) (cd.of_int (lb + d)))))
+              @ List.init (u + 1) (fun p -> Printf.sprintf "pm %s %s" modes.(p mod 3) (cd.of_int p)) in
   let ikinds = [| "u32"; "usz"; "i16"; "i32" |] in
   let qs = if cd.name = "u64" then qs else
       qs @ List.concat (List.init (u + 1) (fun lb -> if lb < 4 then [] else List.init (u + 1 - lb) (fun d ->
